@@ -727,6 +727,8 @@ func c09(c *Ctx) {
 		}
 	}
 
+	// ---------- L3b errors that the store (or its constructor) tells apart by identity or by type arrive unwrapped
+	c.errorIdentity("C09.L3", []string{"raftstore", "raftlog"}, nil, "the store reports (or recovers from) the wrong condition: 'not found' becomes a hard failure, a corrupted manifest is not recovered")
 	// ---------- L11 a torn manifest after a kill is recovered, not refused: opening falls back to RecoverFile on ErrCorrupted
 	if fi := c.P.Func("raftstore.NewLevelDBStore"); fi != nil && fi.Body() != nil {
 		info := fi.Info()
@@ -1004,12 +1006,13 @@ func c09(c *Ctx) {
 
 // c09Convert (L8): ConvertToProto re-encodes every JSON entry in place. Necessary conditions for "after a JSON-to-protobuf
 // conversion the look-ups return the same entries, decoding to the same replicated message":
-//   (a) an entry that was re-encoded is put back before the iterator moves on or the function ends (error exits excepted);
-//   (b) what is put under the entry's key is the encoding of the raft.Log envelope (proto.Marshal of the pb.RaftLog), not
-//       a value left over from an earlier step;
-//   (c) the payload is re-encoded only for command entries, from the message decoded in this iteration
-//       (NewMessageFromBytes -> CopyToProtoMessage -> Marshal);
-//   (d) every way back to the loop head advances the iterator, and where the iterator is exhausted the loop is left.
+//
+//	(a) an entry that was re-encoded is put back before the iterator moves on or the function ends (error exits excepted);
+//	(b) what is put under the entry's key is the encoding of the raft.Log envelope (proto.Marshal of the pb.RaftLog), not
+//	    a value left over from an earlier step;
+//	(c) the payload is re-encoded only for command entries, from the message decoded in this iteration
+//	    (NewMessageFromBytes -> CopyToProtoMessage -> Marshal);
+//	(d) every way back to the loop head advances the iterator, and where the iterator is exhausted the loop is left.
 func (c *Ctx) c09Convert(fi *load.FuncInfo) {
 	r := c.R
 	info := fi.Info()
